@@ -2,7 +2,9 @@ package c18
 
 import (
 	"fmt"
+	shop "github.com/flant/shell-operator/pkg/shell-operator"
 	"math"
+	"os"
 	"testing"
 	"time"
 
@@ -52,6 +54,9 @@ func runE2E(c E2ECase) (ev.Info, error) {
 		return info, fmt.Errorf("harness: %v", err)
 	}
 	defer env.Close()
+	// the operator's "how long to wait for queues at shutdown" tunable, set below every generated interval: no
+	// timeout of the operator may cut a limiter wait short
+	shop.WaitQueuesTimeout = 150 * time.Millisecond
 	q := "q1"
 	if c.SharedQueue {
 		q = ""
@@ -118,6 +123,11 @@ func runE2E(c E2ECase) (ev.Info, error) {
 			}
 		}
 	}
+	if os.Getenv("DBG_STARTS") != "" {
+		for i := 1; i < len(starts); i++ {
+			fmt.Fprintf(os.Stderr, "DBG start %d +%dms\n", i, (starts[i]-starts[i-1])/1000000)
+		}
+	}
 	if len(starts) == 0 {
 		return info, fmt.Errorf("the hook was never executed although %d ticks were injected", c.Ticks)
 	}
@@ -151,7 +161,7 @@ func runE2E(c E2ECase) (ev.Info, error) {
 	return info, nil
 }
 
-const ruleE2E = "the real operator with a scripted hook carrying settings (executionMinInterval 200-400ms, executionBurst 1-2, or none) in its own or the main queue (shared with an unthrottled hook), in half of the cases with 2-3 schedule bindings in queues of their own (the limit is per hook), in 2 of 5 cases with 3-4 ungrouped kubernetes bindings whose Synchronization executions at start-up count as executions; 2-6 tick rounds injected as a burst or with gaps; the first execution fails 0-4 times and is retried; execution starts are taken from the hook's own log; oracle: every window of starts satisfies count <= B + ceil(T/I) + 1 (one token of slack for timer lateness; the exact bound is decided on synthetic time by the limiter part). Real clock, sampled. Non-trivial: >= B+2 executions of a limited hook."
+const ruleE2E = "the real operator with a scripted hook carrying settings (executionMinInterval 200-400ms, executionBurst 1-2, or none) in its own or the main queue (shared with an unthrottled hook), in half of the cases with 2-3 schedule bindings in queues of their own (the limit is per hook), in 2 of 5 cases with 3-4 ungrouped kubernetes bindings whose Synchronization executions at start-up count as executions; 2-6 tick rounds injected as a burst or with gaps; the first execution fails 0-4 times and is retried; the operator's shutdown wait (WaitQueuesTimeout) is set to 150ms, below every interval; execution starts are taken from the hook's own log; oracle: every window of starts satisfies count <= B + ceil(T/I) + 1 (one token of slack for timer lateness; the exact bound is decided on synthetic time by the limiter part). Real clock, sampled. Non-trivial: >= B+2 executions of a limited hook."
 
 func TestE2E(t *testing.T) {
 	ev.Main(t, ev.Spec[E2ECase]{Property: "C18", Part: "e2e", Rule: ruleE2E, Gen: genE2E, Run: runE2E, Journal: true})
